@@ -343,3 +343,151 @@ def c29(tier, seed, replay):
                         ASSUME_COMMON + ["the writer operations run while the backup thread is parked at a schedule point; a writer running "
                                          "during a file copy itself is not forced"])
     return 1 if nv else 0
+
+
+# ------------------------------------------------------------------------------------------------
+# C35: the lock protocol
+# ------------------------------------------------------------------------------------------------
+def _balanced(block):
+    held = []
+    for s in block:
+        k = (s[1], s[2])
+        if s[0] == "acq":
+            held.append(k)
+        elif k in held:
+            held.remove(k)
+        else:
+            return False
+    return not held
+
+
+def collapse_program(steps):
+    """XX -> X for balanced blocks X (a loop body run once instead of n times).  A deadlock reachable with the longer
+    program is reachable with the shorter one: dropping a balanced block from a behaviour only removes holders and waiters,
+    and acquiring is monotone in the other threads' holdings."""
+    st = [tuple(x) for x in steps]
+    changed = True
+    while changed:
+        changed = False
+        for w in range(2, len(st) // 2 + 1, 2):
+            i = 0
+            while i + 2 * w <= len(st):
+                if st[i:i + w] == st[i + w:i + 2 * w] and _balanced(st[i:i + w]):
+                    del st[i + w:i + 2 * w]
+                    changed = True
+                else:
+                    i += 1
+    return [list(x) for x in st]
+
+
+def lock_programs(path):
+    per = {}
+    for l in open(path):
+        p = json.loads(l)
+        c = collapse_program(p["steps"])
+        u = per.setdefault(p["universe"], {})
+        key = json.dumps(c)
+        if key in u:
+            u[key]["names"].append(p["name"])
+        else:
+            u[key] = {"name": p["name"], "names": [p["name"]], "steps": c, "raw_len": len(p["steps"])}
+    return {u: list(d.values()) for u, d in per.items()}
+
+
+def tlc_locks(cfg, progs_path, tag, workers, timeout):
+    r = vlib.tlc_model("Locks", cfg, tag, workers=workers, timeout=timeout, env_extra={"PROGRAMS": progs_path},
+                       coverage=False, extra=["-deadlock"] if False else None)
+    return r
+
+
+@reg("C35")
+def c35(tier, seed, replay):
+    t0 = time.time()
+    vlib.build_harness()
+    cd = cache_dir("locks", tier, seed)
+    res_p = os.path.join(cd, "result.json")
+    if os.path.exists(res_p) and not replay:
+        saved = json.load(open(res_p))
+    else:
+        shutil.rmtree(cd, ignore_errors=True)
+        os.makedirs(cd, exist_ok=True)
+        raw = os.path.join(cd, "programs.ndjson")
+        threads, iters = (8, 60) if tier == "quick" else (16, 400)
+        stats = vlib.nvx(["locks", "--out", raw, "--scratch", os.path.join(cd, "scratch"), "--threads", str(threads),
+                          "--iters", str(iters)], timeout=1800)
+        shutil.rmtree(os.path.join(cd, "scratch"), ignore_errors=True)
+        per = lock_programs(raw)
+        findings = []
+        runs = []
+        for u in stats["universes"]:
+            if u["no_progress_for_10s"]:
+                findings.append({"prop": "C35", "kind": "no-progress", "universe": u["universe"], "stuck": u["stuck"],
+                                 "detail": "no operation completed for 10 s with %d threads running" % u["stress_threads"]})
+        for uni, progs in sorted(per.items()):
+            pp = os.path.join(cd, "programs-%s.ndjson" % uni)
+            vlib.write_ndjson(pp, [{"name": p["name"], "steps": p["steps"]} for p in progs])
+            for cfg, k in [("MC_LockOrder", 0), ("MC_Locks2", 2)] + ([("MC_Locks3", 3)] if tier == "thorough" else []):
+                r = tlc_locks(cfg, pp, "locks-%s-%s-%s" % (uni, cfg, tier), 12 if k == 3 else 4, 7200)
+                out = r.pop("out")
+                open(os.path.join(cd, "tlc-%s-%s.out" % (uni, cfg)), "w").write(out)
+                run = {"universe": uni, "cfg": cfg, "threads": k, "programs": len(progs), "states": r["states"],
+                       "transitions": r["transitions"], "ok": r["ok"], "wall_s": round(r["wall_s"], 1)}
+                m = re.search(r'<<"LOCKORDER", "(\w+)"(?:, (.*))?>>', out)
+                if m:
+                    run["lock_order"] = m.group(1)
+                    run["lock_order_detail"] = m.group(2)
+                if r["timed_out"]:
+                    raise ToolError("Locks/%s timed out" % cfg)
+                if "Deadlock reached" in out or "Temporal properties were violated" in out or r.get("violated"):
+                    # the counterexample: which programs, and where each thread stands in the last state
+                    states = re.findall(r"/\\ choice = (.*)\n", out)
+                    pcs = re.findall(r"/\\ pc = (.*)\n", out)
+                    ch = [int(x) for x in re.findall(r"\d+", states[-1])] if states else []
+                    pc = [int(x) for x in re.findall(r"\d+", pcs[-1])] if pcs else []
+                    where = []
+                    for t, (c, at) in enumerate(zip(ch, pc)):
+                        pr = progs[c - 1]
+                        where.append({"thread": t + 1, "program": pr["name"], "pc": at,
+                                      "blocked_on": pr["steps"][at - 1] if at <= len(pr["steps"]) else None})
+                    findings.append({"prop": "C35", "kind": "model-deadlock" if "Deadlock reached" in out else "model-" + str(r.get("violated") or "liveness"),
+                                     "universe": uni, "threads": k, "where": where,
+                                     "detail": "threads running the recorded lock programs reach a state where none can move"})
+                elif not r["ok"]:
+                    raise ToolError("Locks/%s failed:\n%s" % (cfg, vlib.tail_interesting(out, 40)))
+                runs.append(run)
+        saved = {"stats": stats, "runs": runs, "findings": findings,
+                 "programs": {u: [{"name": p["name"], "same_as": len(p["names"]), "steps": len(p["steps"]), "raw_steps": p["raw_len"]} for p in ps]
+                              for u, ps in per.items()}}
+        # binding self-test: a program set with an inverted pair must be rejected by the same model
+        st_p = os.path.join(cd, "selftest.ndjson")
+        vlib.write_ndjson(st_p, [{"name": "ab", "steps": [["acq", "a", "lock"], ["acq", "b", "lock"], ["rel", "b", "lock"], ["rel", "a", "lock"]]},
+                                 {"name": "ba", "steps": [["acq", "b", "lock"], ["acq", "a", "lock"], ["rel", "a", "lock"], ["rel", "b", "lock"]]}])
+        r = tlc_locks("MC_Locks2", st_p, "locks-selftest", 2, 600)
+        if "Deadlock reached" not in r["out"]:
+            raise ToolError("self-test failed: the AB/BA program pair was accepted by Locks.tla")
+        st2 = os.path.join(cd, "selftest2.ndjson")    # recursive read with a queued writer (std RwLock semantics)
+        vlib.write_ndjson(st2, [{"name": "rr", "steps": [["acq", "x", "read"], ["acq", "x", "read"], ["rel", "x", "read"], ["rel", "x", "read"]]},
+                                {"name": "w", "steps": [["acq", "x", "write"], ["rel", "x", "write"]]}])
+        r = tlc_locks("MC_Locks2", st2, "locks-selftest2", 2, 600)
+        if "Deadlock reached" not in r["out"]:
+            raise ToolError("self-test failed: recursive read + queued writer was accepted by Locks.tla")
+        saved["selftest"] = {"ran": True, "rejected": ["AB/BA mutex inversion", "recursive read with a queued writer"]}
+        json.dump(saved, open(res_p, "w"))
+    findings = saved["findings"]
+    nv, nk = generic_verdict("C35", findings, lambda f: {"property": "C35", "finding": f})
+    runs = saved["runs"]
+    cov = {"states": sum(r["states"] for r in runs), "transitions": sum(r["transitions"] for r in runs),
+           "traces_validated_against_impl": sum(len(v) for v in saved["programs"].values()),
+           "evaluations": sum(u["stress_ops_done"] for u in saved["stats"]["universes"]),
+           "distinct_nontrivial": sum(len(v) for v in saved["programs"].values()),
+           "rule": "lock programs = the acquire/release steps each public operation performs, observed through the lock hooks "
+                   "(alone, and per call under an N-thread stress run); Locks.tla runs K threads over every multiset of programs and every "
+                   "interleaving with std Mutex / writer-preferring RwLock semantics and TLC's deadlock check; the stress run itself is "
+                   "watched for 10 s without progress",
+           "model_runs": runs, "stress": saved["stats"]["universes"], "programs": saved["programs"],
+           "binding_selftest": saved.get("selftest"), "known_findings_seen": nk}
+    vlib.write_evidence("C35", tier, seed, "model_checking", cov, time.time() - t0, nv,
+                        ASSUME_COMMON + ["lock sequences not produced by the driver's operations (14 engine-level, 17 Db/Cypher-level, alone and under contention) are not in the model",
+                                         "threads K <= 2 (quick) / 3 (thorough) explicitly; any K only when the gate-aware lock-order certificate is acyclic",
+                                         "blocking other than on the engine's Mutex/RwLock objects (file locks, I/O) is not modelled"])
+    return 1 if nv else 0
